@@ -62,6 +62,19 @@ def gen_history(rng, tag, shipped):
                        ["convert", ["i", 2], ["pow", ["u", o[4]], 2], ["pow", ["u", o[5]], 2]], ["convert", ["i", 2], ["pow", ["u", o[5]], 3], ["pow", ["u", o[4]], 3]],
                        ["lt", ["i", 1], ["mul", ["u", o[2]], ["u", o[4]]], ["i", 1], ["mul", ["u", o[3]], ["u", o[5]]]]]
     defs = defs + odd_defs
+    # ratios stated as Decimals, asked with Decimal magnitudes while the program changes the ambient decimal precision in
+    # between (a report printed with 5 digits, then the exact computation): what was asked under a coarse context must not
+    # be what is answered later under the ordinary one
+    dec_queries = []
+    if rng.random() < 0.35:
+        dn = [f"zq{tag}dec{k}" for k in range(3)]
+        defs = defs + [["define", x, x, ["dimname", "length"]] for x in dn]
+        extra.append(["declare", ["u", dn[0]], ["d", "1.2345678901234"], ["u", dn[1]]])
+        extra.append(["declare", ["u", dn[1]], ["d", "3"], ["u", dn[2]]])
+        for a_, b_ in ((dn[0], dn[2]), (dn[2], dn[0]), (dn[0], dn[1])):
+            dec_queries.append(["convert", ["d", "1"], ["u", a_], ["u", b_]])
+            dec_queries.append(["convert", ["d", "2.5"], ["pow", ["u", a_], 2], ["pow", ["u", b_], 2]])
+            dec_queries.append(["convert", ["d", "6"], ["div", ["u", "one"], ["u", a_]], ["div", ["u", "one"], ["u", b_]]])
     rng.shuffle(decls)
     # the re-declaration must come *after* the original to change the answer; bridges anywhere
     decls = decls + extra if rng.random() < 0.5 else decls[: len(decls) // 2] + extra + decls[len(decls) // 2:]
@@ -115,6 +128,11 @@ def gen_history(rng, tag, shipped):
         ops1.append(reverse(rng.choice(finals)) if rng.random() < 0.7 else rand_query())
     if odd_queries:
         ops1.append(rng.choice(odd_queries))   # the first final question is the first search after an abandoned one
+    if dec_queries:
+        finals = finals + dec_queries
+        ops1.append(["decimal_prec", rng.choice([5, 7, 9])])
+        ops1 += rng.sample(dec_queries, rng.randint(3, len(dec_queries)))    # first asked under the coarse context
+        ops1.append(["decimal_prec", 28])
     final_start = len(ops1)
     ops1 += finals
     ops1 += [["cache_info"], ["flush"]]
